@@ -47,6 +47,10 @@ def run(chk):
                 "(64-bit values substituted for toy word values) and judged by integer semantics for every m of the box; every attachment case is "
                 "materialised on real credentials (1024-bit) and real ProofDs and must get the specification's verdict from ProofD.Verify and "
                 "ProofList.Verify (in memory and after JSON); after acceptance ProvenStatement/ProvesStatement are checked against the signed value. "
+                "Plus RangeFS.tla: the range proof as a game over small integers with the ORDER of the prover's choices explicit - with the commitments C_i in the hash no first "
+                "move lets every challenge be answered with a false statement and a challenge that does not divide the prover's fixed quantity can only be answered with a true one; "
+                "without them (D44) TLC finds the forgery. Replay: a prover that hashes T_m, T_i with known exponents, gets c and THEN solves for d_i (C_i = R^d_i) and K builds 14 "
+                "false statements ('any bound' and exact bounds, both signs), through JSON, against ProofD.Verify / ProofList.Verify. "
                 "Plus ZkProof.tla (Qr variant): the representation-proof engine the range proofs are built on, in a concrete toy group (n = 77) in which TLC does the "
                 "arithmetic itself - four statement shapes incl. those of the range proof (C_i = R^d S^v, the m-correctness equation) with prover-supplied bases ranging over "
                 "ALL residues incl. 0 and non-units; invariants Complete, Absorbing (a supplied base 0 makes the reconstructed commitment 0 whatever the responses: D27); "
@@ -91,6 +95,19 @@ def run(chk):
     if res.get("counts", {}).get("expect:accept", 0) < 100 or res.get("counts", {}).get("expect:reject", 0) < 1000:
         raise vplib.Machinery("attachment replay is vacuous: %s" % res.get("counts"))
     chk.add_replay(res, "attachment")
+    # what the challenge covers (RangeFS.tla): a prover that chooses the C_i and the bound after the challenge
+    r = vplib.tlc_mc("RangeFSGen", "RangeFS.fixed.cfg", workers=1, timeout=600)
+    fs = sorted(set(r.tagged_raw_json("F")))
+    chk.add_tlc(r, "RangeFSGen", "RangeFS.fixed.cfg", "NoForgery, BigChallengeSound, Complete with the C_i in the hash")
+    r = vplib.tlc("RangeFS", "RangeFS.asis.cfg", timeout=300, allow_fail=True)
+    if "NoForgery" not in r.invariant_violated:
+        raise vplib.Machinery("RangeFS: without the C_i in the hash NoForgery should be violated (vacuity)")
+    fp = os.path.join(vplib.sub("c12"), "fsforge.ndjson")
+    open(fp, "w").write("\n".join(fs) + "\n")
+    res = vplib.vh("rp", ["fsforge", "--in", fp, "--tier", T, "--seed", str(chk.seed)], timeout=1800)
+    if res["evaluations"] < 10:
+        raise vplib.Machinery("fsforge replayed only %d forgeries" % res["evaluations"])
+    chk.add_replay(res, "challenge_coverage")
     # the representation-proof engine underneath, in a concrete toy group (ZkProof.tla)
     zkstage.run(chk, "qr")
     chk.exhaustive = True
